@@ -52,6 +52,11 @@ CHECKS = {
   text="Model checking by trace validation: ~45 structured program texts (if / if-else / if-elif-else, nesting, for over a secret bound with public maximum with/without break and bound check, while with public cap and break, compositions) are rendered as block-API calls and run for every input vector of a small window (both condition typings); TLC interprets the same AST natively and compares all final variables, checks no raise inside the domain and refusal of a bound above the maximum, constraint satisfaction / value==wire of the run, and equality of the constraint system across all inputs of one program.",
   note="Bounded program family and input window; the renderer harness/cfdriver.py is trusted as an observer. Relies on fix: commits 7b3a3bb, 395c6f5, 8a8c07c (without them no behaviour of this API exists).",
   design="5/C09"),
+ "C14": dict(
+  technique="TLC trace validation (TraceFxp.tla, Inv_Fxp/Inv_FxpUn/Inv_FxpNew) against a TLA+ scaled-integer reference (FxpRef.tla)",
+  text="Model checking by trace validation: every fixed-point operator x operand kind pair (fixed-point, secret int, secret bool, int, float, public fixed-point) x both orders x all representable values of a window x resolutions 1..3 (plus pow, shifts, unary ops, val() and conversions) is run on the real code; TLC computes the exact representation with FxpRef and compares.",
+  note="Only exactly representable floats; representations compared as exact integers (fields large enough that nothing wraps). Known finding: fxp ** n reduces modulo p.",
+  design="5/C14"),
 }
 
 NOT_YET = "check not built yet in this round (planned, see DESIGN.md section 5)"
